@@ -1460,6 +1460,11 @@ class C17(Property):
             for k, sp in enumerate(ans.get("spec", [])):
                 if not sp:
                     continue
+                if "perm" in sp:
+                    tags.append("C:index-hyp-" + ("holds" if sp["hyp"] else "fails"))
+                    if sp["hyp"] and not (sp["perm"] and sp["sorted"]):
+                        fails.append(F("C", "op #%d: hypotheses of index_spec hold but the model's rows are %s" % (k, "not a rearrangement" if not sp["perm"] else "not in index order"), "C:index_spec"))
+                    continue
                 tags.append("C:where-hyp-" + ("holds" if sp["hyp"] else "fails"))
                 m = model[k + 1]
                 # the Lean specification and the harness' plain evaluation are two readings of the same sentence: they must agree
